@@ -26,11 +26,11 @@ LOCK = threading.Lock()
 
 # --------------------------------------------------------------------------- cfg files
 def mc_cfg(path, family, layout, cap0, hooks, depth, fixed, kd, invariants, deadlock=False, opts=None):
-    """opts: {"keys": (KA, KB), "policy": "lru" | "victim" | "ttl", "budget": bytes} - key names, eviction policy and
-    byte budget of the memory layers (defaults: a / b, lru, no budget)."""
+    """opts: {"keys": (KA, KB), "policy": "lru" | "victim" | "ttl", "budget": bytes, "vals": (..)} - key names, eviction
+    policy and byte budget of the memory layers, value names (defaults: a / b, lru, no budget, v1 / v2)."""
     o = opts or {}
     ka, kb = o.get("keys", ("a", "b"))
-    lines = ["CONSTANTS", f'  KA = "{ka}"', f'  KB = "{kb}"', f'  Keys = {{"{ka}", "{kb}"}}', '  Vals = {"v1", "v2"}',
+    lines = ["CONSTANTS", f'  KA = "{ka}"', f'  KB = "{kb}"', f'  Keys = {{"{ka}", "{kb}"}}', f'  Vals = {lib.tla_set(o.get("vals", ("v1", "v2")))}',
              "  Kinds <- MCKinds", "  Caps <- MCCaps", "  Budgets <- MCBudgets", "  Policies <- MCPolicies", "  Sizes <- MCSizes",
              f'  Policy = "{o.get("policy", "lru")}"', f'  Budget = {o.get("budget", 0)}',
              f'  Layout = "{layout}"', f"  Cap0 = {cap0}", f"  Hooks = {'TRUE' if hooks else 'FALSE'}",
@@ -62,7 +62,8 @@ def design_checks(ctx, kd):
     for fam, lay, c0, hooks, d in plan:
         jobs.append((f"ideal_{fam}_{lay}{c0}", (fam, lay, c0, hooks, d, ALL_FINDINGS, []), ["ConformsIdeal", "Returns", "GhostSane"], True, False))
     # the other configuration alphabets: byte budget with the ttl policy / a victim-choosing policy, odd key names
-    for nm, o in (("ttlpol", {"policy": "ttl", "budget": 40}), ("budget", {"policy": "victim", "budget": 40}),
+    jobs.append(("ideal_fault2_mdd", ("fault2", "mdd", 1, True, 4, ALL_FINDINGS, []), ["ConformsIdeal", "Returns", "GhostSane"], True, False))
+    for nm, o in (("ttlpol", {"policy": "ttl", "budget": 40, "vals": ("v1", "big")}), ("budget", {"policy": "victim", "budget": 40, "vals": ("v1", "big")}),
                   ("tmpkeys", {"keys": ("a.tmp", "b.TMP")})):
         if nm == "ttlpol" or not ctx.quick:
             jobs.append((f"ideal_{nm}", ("core", "md", 100 if "budget" in o else 1, False, 3, ALL_FINDINGS, [], o),
@@ -265,13 +266,14 @@ def run(ctx):
     design_checks(ctx, kd)
     rnd = random.Random(ctx.seed)
     # (tag, family, layout, cap0, hooks, depth[, opts: key names / eviction policy / byte budget of the memory layers])
-    TTLPOL = {"policy": "ttl", "budget": 40}        # 40 bytes = two of the 17-byte values; max_entries out of the way
-    BUDGET = {"policy": "victim", "budget": 40}     # lru / lfu / fifo / random round-robin over the programs
+    # 40 bytes = two of the 17-byte values, "big" (64 bytes) is larger than the whole budget; max_entries out of the way
+    TTLPOL = {"policy": "ttl", "budget": 40, "vals": ("v1", "big")}
+    BUDGET = {"policy": "victim", "budget": 40, "vals": ("v1", "big")}     # lru / lfu / fifo / random round-robin over the programs
     TMPKEYS = {"keys": ("a.tmp", "b.TMP")}          # cache-key strings with the extension of the disk layer's temp files
     if ctx.quick:
         plan = [("core_md1", "core", "md", 1, False, 4), ("core_mmd1", "core", "mmd", 1, False, 3),
                 ("core_budget", "core", "md", 100, False, 3, BUDGET), ("core_ttlpol", "core", "md", 100, False, 3, TTLPOL),
-                ("core_tmpkeys", "core", "md", 1, False, 3, TMPKEYS),
+                ("core_tmpkeys", "core", "md", 1, False, 3, TMPKEYS), ("fault2_mdd", "fault2", "mdd", 1, True, 4),
                 ("layer_md1", "layer", "md", 1, False, 3), ("batch_md1", "batch", "md", 1, False, 3),
                 ("valid_md1", "valid", "md", 1, True, 4),
                 ("fault_md1", "fault", "md", 1, True, 3), ("ttl_md1", "ttl", "md", 1, False, 3)]
@@ -284,6 +286,7 @@ def run(ctx):
                 ("layer_budget", "layer", "mmd", 100, False, 3, BUDGET),
                 ("core_tmpkeys", "core", "md", 1, False, 4, TMPKEYS), ("fault_tmpkeys", "fault", "md", 1, True, 3, TMPKEYS),
                 ("batch_tmpkeys", "batch", "md", 1, False, 3, TMPKEYS),
+                ("fault2_mdd", "fault2", "mdd", 1, True, 5), ("core_mdd", "core", "mdd", 1, False, 4),
                 ("layer_mmd", "layer", "mmd", 1, False, 3), ("layer_md2", "layer", "md", 2, False, 4), ("batch_md1", "batch", "md", 1, False, 4),
                 ("batch_mmd2", "batch", "mmd", 2, False, 3),
                 ("valid_md1", "valid", "md", 1, True, 5), ("valid_off", "valid", "md", 1, False, 4), ("valid_mmd", "valid", "mmd", 1, True, 4),
